@@ -22,7 +22,7 @@ RULE = ("each case: 1-12 servers each with a drawn behaviour, (k<=4, N<=8, happy
 LEVEL_TEXT = "Fault-plan and schedule search with an independent matching reference and direct inspection of the servers' share directories."
 ASSUMPTIONS = ["shares of a convergent upload are deterministic, so a complete share equals the reference encoding byte for byte in its data region",
                "a disconnected server's incoming/ is cleaned by its disconnect callbacks, which the harness fires"]
-REQUIRED_CLASSES = ["success", "unhappy", "preexisting", "fault-fail-write", "fault-readonly", "fault-full-later", "fault-disconnect", "success-with-fault"]
+REQUIRED_CLASSES = ["success", "unhappy", "preexisting", "pre-dups", "fault-fail-write", "fault-readonly", "fault-full-later", "fault-disconnect", "success-with-fault"]
 BUDGET = {"quick": 900, "thorough": 7200}
 KINDS = ["ok", "ok", "ok", "readonly", "full-announced", "full-later", "fail-allocate", "fail-allocate-once", "fail-write", "fail-close", "disconnect", "late", "down"]
 
@@ -41,7 +41,26 @@ def cases(draw):
     servers = [[draw(st.sampled_from(KINDS)), draw(st.integers(0, 12))] for _ in range(nserv)]
     seg = draw(st.sampled_from([k * 8, 64]))
     size = max(56, seg * draw(st.integers(1, 3)) - draw(st.integers(0, seg - 1)))
-    pre = draw(st.one_of(st.none(), st.lists(st.tuples(st.integers(0, nserv - 1), st.integers(0, n - 1)).map(list), max_size=n + 2), st.just("prior")))
+    pre = draw(st.one_of(st.none(), st.lists(st.tuples(st.integers(0, nserv - 1), st.integers(0, n - 1)).map(list), max_size=n + 2), st.just("prior"), st.just("dups")))
+    if pre == "dups" and n >= 2:
+        # one share number already held by several servers that cannot take anything else (read-only / full), few writable servers, a threshold
+        # near the number of servers: counting the final layout needs augmenting paths through reverse edges
+        nro = draw(st.integers(1, 3))
+        nw = draw(st.integers(1, 2))
+        nserv = nro + nw
+        sh = draw(st.integers(0, n - 1))
+        # which grid positions (hence which server ids, hence which set/dict iteration order) play which role is drawn too
+        posn = draw(st.permutations(list(range(nserv))))
+        ro, wr = posn[:nro], posn[nro:]
+        servers = [None] * nserv
+        for i in ro:
+            servers[i] = [draw(st.sampled_from(["readonly", "full-announced"])), 0]
+        for i in wr:
+            servers[i] = ["ok", 0]
+        pre = [[i, sh] for i in ro] + ([[wr[0], sh]] if draw(st.booleans()) else [])
+        happy = draw(st.integers(min(n, max(1, nserv - 1)), min(n, nserv + 1)))
+    elif pre == "dups":
+        pre = None
     if pre == "prior":
         # the layout an earlier upload to the first j servers leaves behind (several shares per server); the upload under test then sees a bigger grid and
         # usually a higher threshold, so it must spread duplicates of existing shares onto new servers
@@ -214,6 +233,11 @@ def run_case(case, ctx):
             classes.add("fault-" + kd)
     if pre:
         classes.add("preexisting")
+        byshare = {}
+        for (sidx, sh) in pre:
+            byshare.setdefault(sh, set()).add(sidx)
+        if any(len(v) >= 2 and all(kinds[i] in ("readonly", "full-announced") for i in v if i < len(kinds)) or len(v) >= 3 for v in byshare.values()):
+            classes.add("pre-dups")
     nt = bool(pre) or any(kd != "ok" for kd in kinds)
     ctx.note(sig=repr(sorted(case.items())), nontrivial=nt, classes=sorted(classes),
              sample={"k": k, "happy": happy, "n": n, "servers": kinds, "pre": sorted(pre), "outcome": r[0] if r[0] != "err" else type(r[1]).__name__})
